@@ -54,7 +54,7 @@ def _run(F, R, ctx):
            mark.loc(), sample={"parallel_marker_calls": len(par), "sequential_visits": len(seq), "drains_after_mark": len(drains_after)})
     # the recycler's own queue
     rec = F.one(r"for GlobalSlotRecycler\}::visit$")
-    R.inst("C19.a", "GlobalSlotRecycler::visit pops its queue", bool(rec.call_blocks(r"GlobalSlotRecycler\}::pop_front$")),
+    R.inst("C19.a", "GlobalSlotRecycler::visit pops its queue", bool(rec.call_blocks(r"GlobalSlotRecycler\}::pop_front$", wrappers=True)),
            "GlobalSlotRecycler::visit no longer pops its work-list", rec.loc(), nontrivial=True)
 
     # ---- b, c
